@@ -372,6 +372,8 @@ def m_dict_contains(interp, d, key):
 
 @_method(str, 'join')
 def m_str_join(interp, sep, items):
+    if isinstance(items, (SStr, FmtStr)) and sep == '' and items.pytype is str:
+        return items           # ''.join(s) of a string is the string itself
     items = list(interp.iterate(items))
     out = FmtStr([], str)
     for i, x in enumerate(items):
@@ -387,6 +389,12 @@ def m_str_join(interp, sep, items):
 
 @_method(bytes, 'join')
 def m_bytes_join(interp, sep, items):
+    if isinstance(items, (SBytes, FmtStr)) and sep == b'' and items.pytype is bytes:
+        return items
+    if isinstance(items, SStr) and not isinstance(items, SBytes):
+        if interp.ctx.branch(z3.Length(items.t) > 0):
+            raise TypeError("sequence item 0: expected a bytes-like object, str found")
+        return b''
     items = list(interp.iterate(items))
     out = FmtStr([], bytes)
     for i, x in enumerate(items):
